@@ -134,12 +134,19 @@ class HTTPFile(io.IOBase):
             start = index*self._chunk_size
             stop = min((index+1)*self._chunk_size, self.length)
             self.cache[index] = self.download_range(start, stop)
+        chunk = self.cache[index]
         if len(self.cache) > self._keep_chunks:
             for kk in self.cache.keys():
-                if kk != 0:  # always keep the first chunk
+                # keep the first chunk and the chunk requested
+                if kk != 0 and kk != index:
                     self.cache.pop(kk)
                     break
-        return self.cache[index]
+            else:
+                # Only the first chunk and the requested chunk are left
+                # (`keep_chunks` is 1); drop the first chunk.
+                if index != 0:
+                    self.cache.pop(0, None)
+        return chunk
 
     def read(self, size=-1, /):
         """Cache-supported read operation (file object)"""
